@@ -386,7 +386,7 @@ def decide_kernels(jobs, build, cap=60, workers=14, seed=0, validate_n=40, log=p
         bad = [(q, s) for q, s in qs if q['id'].split('#')[1].startswith('bad')]
         oks = [(q, s) for q, s in qs if q['id'].split('#')[1].startswith('ok')]
         softs = [(q, s) for q, s in qs if q['id'].split('#')[1].startswith('soft')]
-        r.update(paths=ex['stats']['paths'], instrs=ex['stats'].get('instrs', 0), kinds=ex['kinds'], explore_s=ex['explore_s'], called=ex['called'],
+        r.update(paths=ex['stats']['paths'], instrs=ex['stats'].get('instrs', 0), feas_checks=ex['stats'].get('feas_checks', 0), pruned=ex['stats'].get('pruned', 0), kinds=ex['kinds'], explore_s=ex['explore_s'], called=ex['called'],
                  queries=len(qs), solver_s=round(sum(s['t'] for q, s in qs), 2),
                  bad_paths=len(bad), bad_unsat=sum(1 for q, s in bad if s['verdict'] == 'unsat'),
                  vacuity_ok=any(s['verdict'] == 'sat' for q, s in oks), n_ok_paths=ex['n_ok_paths'],
